@@ -202,7 +202,7 @@ PROPS['C14'] = dict(
     gens=[],
     engines=[dict(name='framing', must_hit=['cut', 'undecodable', 'invalid-length']),
              dict(name='sendloop', must_hit=['op:break', 'op:fin', 'op:down', 'op:up', 'limit:0', 'limit:1', 'limit:2']),
-             dict(name='remote', nomodel=True, must_hit=['rm:refused', 'rm:recover', 'rm:cut-mid', 'rm:cut-prefix', 'rm:cut-mid-limit0'])],
+             dict(name='remote', nomodel=True, must_hit=['rm:refused', 'rm:recover', 'rm:cut-mid', 'rm:cut-prefix', 'rm:cut-mid-limit0', 'rm:stall'])],
     rule='framing: streams cut after every byte offset (inside a prefix, inside a body, between frames), frames with invalid length or undecodable payload: events compared with the model receiver. '
          'sendloop: the real Mailbox.Enqueue / ExponentialBackoff.Try in a real system against a harness-owned peer that accepts, refuses (down), resets the connection (break) and returns (up): per Tell sent/dead, and at the end '
          'the peer\'s received sequence, the dead letters and the number of accepted connections, compared with the model for budgets 0..2. remote (monitor only): refused peer -> exactly one dead letter per message, Tell latency; '
